@@ -95,10 +95,7 @@ def run(ctx):
                        "accepted through a badge; distinct by full action list")
     if cov["badge_acc"] < 20 or over < 5 or expired < 3 or maxfill < 75 or cov["tx_ok"] < 20:
         raise vlib.Infra("vacuous coverage: %s" % cov)
-    variant, ra, rf = _pay.conf(ctx, tpath, "c18_conf")
-    ctx.cov["conforms_to"] = variant
-    if variant is None:
-        ctx.drift.append("real chain is not a behaviour of Payments.tla: as-found transcription accepted %s lines, repaired %s of %d" % (ra, rf, len(rows)))
+    _pay.note_conf(ctx, tpath, "c18_conf", len(rows))
     ctx.assumptions += _pay.ASSUMPTIONS
 
 
